@@ -78,8 +78,15 @@ class AbstractOnlineUpdateVisitor(AbstractAstVisitor):
         self.results[node] = sample_return
         return sample_return
 
+    def reuse(self, node):
+        # results of a repeated sub-formula are those of its first occurrence
+        for child in node.children:
+            self.reuse(child)
+        self.results[node] = self.updated[node.name]
+
     def visitBinary(self, node, online_operator_dict, var_object_dict):
         if node.name in self.updated:
+            self.reuse(node)
             sample_return = self.updated[node.name]
         else:
             sample_left  = self.visit(node.children[0], online_operator_dict, var_object_dict)
@@ -92,6 +99,7 @@ class AbstractOnlineUpdateVisitor(AbstractAstVisitor):
 
     def visitUnary(self, node, online_operator_dict, var_object_dict):
         if node.name in self.updated:
+            self.reuse(node)
             sample_return = self.updated[node.name]
         else:
             sample = self.visit(node.children[0], online_operator_dict, var_object_dict)
@@ -106,5 +114,6 @@ class AbstractOnlineUpdateVisitor(AbstractAstVisitor):
             sample_return = self.visitConstant(node, online_operator_dict, var_object_dict)
         elif isinstance(node, Variable):
             sample_return = self.visitVariable(node, online_operator_dict, var_object_dict)
+        self.updated[node.name] = sample_return
         self.results[node] = sample_return
         return sample_return
